@@ -70,7 +70,7 @@ def assemble(bases, blockfn, norms):
     for ks in itertools.product(*[range(len(b)) for b in bases]):
         raw, rawabs = blockfn(ks)
         extra = raw.ndim - 2 * nidx
-        res, resabs = raw, rawabs
+        res, resabs = raw, np.abs(rawabs)
         # normalise and transform index by index
         for n, k in enumerate(ks):
             sh = bases[n][k]
